@@ -166,11 +166,15 @@ CHECKS = {
              "at most once (C16_at_most_once); base lists precede own (Proofs/ElabRefine.v). Tie: spec_C16 + spec_C04.",
         note=TB, design="DESIGN.md section 6 C16"),
     "C17": dict(
-        text="Theorem: decorating a function with any decorator stack leaves every list cell, function object, class, "
-             "binding and registration that existed before unchanged (C17_function_decoration_frame, over the heap "
-             "model of Model/Elab.v where aliasing is explicit). Class statements: checked on every run by "
-             "correspondence (contents and identity of all lists of all earlier classes after each step, spec_C17).",
-        note=TB + "Partial: the frame theorem for class statements is stated in Props/C17.v but not proved.",
+        text="Theorems over the heap model of Model/Elab.v where aliasing is explicit: decorating a function with any "
+             "decorator stack leaves every list cell, function object, class, binding and registration that existed before "
+             "unchanged (C17_function_decoration_frame); so does a class statement - member definitions, the meta-class "
+             "merging inherited contracts and invariant lists, invariant wrappers, registration, class decorators - provided "
+             "the new class shows only invariant lists of its own (C17_class_statement_frame; hypothesis discharged for "
+             "classes without bases and statements without class decorators, evaluated on every generated history "
+             "otherwise). Tie: contents and identity of all lists of all earlier classes after each step (spec_C17).",
+        note=TB + "Partial: the OwnLists hypothesis is not proved for all reachable worlds (needs well-formed C3 "
+             "linearisations); it is evaluated on the model's world for every generated history on every run.",
         design="DESIGN.md section 6 C17"),
     "C18": dict(
         text="Theorems: judging a call by hand over the introspected lists (DNF, then CNF on the result) gives the "
